@@ -137,8 +137,8 @@ CHECKS = {
     },
     "C04": {
         "extra_props": ["Props/C04_retry.v", "Props/C04_poll.v", "Props/C04_throttle.v", "Props/C04_timeout.v", "Props/C04_src.v", "Props/C04_layers.v"],
-        "modules": ["p_c04", "p_c04r", "p_c04t", "p_c04p", "p_c04o", "p_c04c", "p_c04m", "p_c04b"],
-        "rule": "p_c04t / p_c04p / p_c04o / p_c04c / p_c04m / p_c04b: the lockstep families of C07, C08, C09, C10, C13, C14 (every component machine) with the deadlock / dead-thread verdicts of their monitors; p_c04r: the Retry lockstep family (C05) with the pending / late / deadlock verdicts (a result() or shutdown(wait=True) that would wait for ever on the submit thread); p_c04: seeded scenarios on real stacks: depth 1-4 over the seven layer kinds, base sync or the real ThreadPoolExecutor, client programs "
+        "modules": ["p_c04", "p_c04r", "p_c04x", "p_c04t", "p_c04p", "p_c04o", "p_c04c", "p_c04m", "p_c04b"],
+        "rule": "p_c04x: the Retry lockstep family of C06 (cancel() racing with the submit thread) with the deadlock / pending verdicts; p_c04t / p_c04p / p_c04o / p_c04c / p_c04m / p_c04b: the lockstep families of C07, C08, C09, C10, C13, C14 (every component machine) with the deadlock / dead-thread verdicts of their monitors; p_c04r: the Retry lockstep family (C05) with the pending / late / deadlock verdicts (a result() or shutdown(wait=True) that would wait for ever on the submit thread); p_c04: seeded scenarios on real stacks: depth 1-4 over the seven layer kinds, base sync or the real ThreadPoolExecutor, client programs "
                 "of 1-3 threads x 1-4 operations {submit, submit whose callable submits again, cancel, add_done_callback, add_done_callback "
                 "whose callback submits again, result}, map functions that submit again, optional shutdown thread; x {random, sticky, PCT} "
                 "schedules; deadlock = every unfinished thread blocked and no timer (or only periodic timers firing for ever); each deadlock is "
